@@ -115,6 +115,14 @@ class Effects:
                 o = A.call_object(cur)
                 if o is None:
                     return None
+                if cur.get("callee_in_root"):
+                    # accessor that hands out storage of another object: obj->getData()[i]
+                    tgt = self.accessor_field(cur.get("callee_sig"))
+                    op = self.objpath(o, None, fields)
+                    if tgt and op and op != "this":
+                        self._last_root = cur["id"]
+                        self._last_obj = op
+                        return tgt, None
                 cur = A.strip(o, casts=False)
             elif k == "CXXOperatorCallExpr" and cur.get("op") in ("->", "*") and cur.get("args"):
                 cur = A.strip(cur["args"][0], casts=False)
